@@ -244,7 +244,10 @@ SWEEP_DOC = ("for every target `prqlc list-targets` prints: SQL under the explic
 
 _PROG = "from t\nselect {`a b`, c, d = c + 1}\nfilter c > 1\nsort c\ntake 2..5\n"
 _EXTRA = ['from s"SELECT [a x], b FROM t"\nderive c = 1\n', 'from s"SELECT \\"a\\", b FROM t"\nderive c = 1\n', 'from s"SELECT `a`, b FROM t"\nfilter b > 1\n',
-          "from [{n = 1}]\nloop (filter n < 4 | select n = n + 1)\nsort n\n"]
+          "from [{n = 1}]\nloop (filter n < 4 | select n = n + 1)\nsort n\n",
+          # declarations directly under the header line, and a name that the header's own declaration `prql` must not hide (round-7 seeds C18-13, C18-14)
+          "module helpers {\n  let bump = x -> x + 1\n}\nfrom t\nselect {y = helpers.bump a}\n", "type money = int\nfrom t\nselect {a}\n",
+          "from employees\nderive compiled_with = prql.version\nsort age\ntake 3\n"]
 
 
 def sweep():
